@@ -84,20 +84,23 @@ class Gen:
         depth_expr = "(bin - (v %d) %d)" % (dname, off) if dname is not None else str(max(0, self.main_depth() - off + 1))
         args = []
         fb = set(forbid)
+        bound = set(forbid)           # callee parameters already bound (both families): the depth variable must not be one of them
         for j in range(n):
             if j == 0:
                 a = depth_expr
             else:
                 names = [x for x in env["args_ok"] if x not in fb] if not self.o.reuse else list(env["vis"])
-                can_nest = nest > 0 and self.branching > 1 and (self.o.reuse or dname is None or dname not in fb)
+                can_nest = nest > 0 and self.branching > 1 and (dname is None or dname not in bound)
                 if can_nest and r.random() < 0.2:
-                    a = self.call(env, dname, off + 1, frozenset(fb), nest - 1)
+                    a = self.call(env, dname, off + 1, frozenset(bound if self.o.reuse else fb), nest - 1)
                     self.feats.add("nested-call-arg")
                 else:
                     a = self.pure(names, 1)
             args.append(a)
-            if j < np_ and not self.o.reuse:
-                fb.add(fn.params[j])
+            if j < np_:
+                bound.add(fn.params[j])
+                if not self.o.reuse:
+                    fb.add(fn.params[j])
         return "(call %d %s)" % (fn.fid, " ".join(args))
 
     # ------------------------------------------------------------ function bodies
